@@ -63,6 +63,8 @@ OptEncSigs ==
   \* slices and strings as Option payloads: the std spelling only (DiplomatOption is documented for primitive, enum and
   \* struct payloads); a scalar follows the option so that a wrong record size shifts it
   \cup {Sg(K("opq"), <<OptT("std", t), P("u16")>>, FALSE, UnitT) : t \in OptSlicePayload}
+  \* ... and OWNED slices and strings (Option<Box<[T]>>, Option<Box<str>>): the same option record around the same two-word view
+  \cup {Sg(K("opq"), <<OptT("std", t), P("u16")>>, FALSE, UnitT) : t \in {SliceT("u8", "own"), SliceT("f64", "own"), StrT("utf8", TRUE), StrT("u16", TRUE)}}
   \cup {Sg(K("opq"), <<>>, FALSE, OptT("std", t)) : t \in {StrT("utf8", FALSE), SliceT("u8", "imm"), SliceT("f64", "imm")}}
 
 \* callbacks (`impl Fn(A...) -> R` parameters): on the wire {data, run_callback(data, A...) -> R, destructor(data)}
